@@ -226,6 +226,10 @@ def decide(pid, tier, seed):
             results.append(f.result())
         for f in kfuts:
             kres.append(f.result())
+    thorough_report = {}
+    extra_undecided = []
+    if tier == 'thorough' and not os.environ.get('VERIF_SELFTEST_CHILD'):
+        thorough_report, extra_undecided = thorough_extras(pid, P, units, seed)
     findings = [f for f in load_findings() if f['property'] == pid]
     violations = []
     known = []
@@ -273,8 +277,9 @@ def decide(pid, tier, seed):
         path = write_replay(pid, body)
         vio_lines.append('VIOLATION property=%s replay=%s obligation=%s%s' % (pid, path, v['key'], tail))
     # kani violations whose Verus twin also failed are reported once each (both lines are fine)
+    undecided.extend(extra_undecided)
     wall = time.time() - t0
-    write_evidence(pid, tier, seed, P, results, kres, violations, known, undecided, wall)
+    write_evidence(pid, tier, seed, P, results, kres, violations, known, undecided, wall, thorough_report)
     for v, f in known:
         print('KNOWN-FINDING: property=%s %s %s' % (pid, f['obligation'], f['what']))
     for l in vio_lines:
@@ -294,7 +299,50 @@ def decide(pid, tier, seed):
     return 0
 
 
-def write_evidence(pid, tier, seed, P, results, kres, violations, known, undecided, wall):
+def thorough_extras(pid, P, units, seed):
+    """thorough tier only: proof stability (two more Z3 seeds, doubled rlimit), liveness of the check against the
+    deliberate edits of selftest_cases.py for this property (scratch copies), translation validation of the D-rules
+    by the project's own suite (tools/rulecheck.py).  Problems here are machinery problems: exit 2, never an alarm."""
+    rep = {}
+    und = []
+    # 1. stability
+    stab = []
+    for u in units:
+        p = os.path.join(SCRATCH, u + '.rs')
+        if not os.path.exists(p):
+            continue
+        for k in (1, 2):
+            r = vlib.run_verus(p, seed=(seed + 17 * k) % 1000 + k, rlimit=40)
+            stab.append({'unit': u, 'seed': (seed + 17 * k) % 1000 + k, 'status': r['status'], 'verified': r['verified'], 'errors': r['errors']})
+            if r['status'] != 'ok':
+                und.append('stability: unit %s fails with another Z3 seed (%s)' % (u, r['status']))
+    rep['stability_runs'] = stab
+    # 2. liveness against deliberate edits
+    try:
+        import selftest_cases
+        sys.path.insert(0, HERE)
+        import selftest as st
+        cases = [c for c in selftest_cases.CASES if c[1] == pid]
+        live = []
+        with concurrent.futures.ThreadPoolExecutor(max_workers=6) as ex:
+            for name, _pid, expect, got, tail in ex.map(st.run, cases):
+                ok = (got == expect) or (expect == 'not-violation' and got != 'violation')
+                live.append({'case': name, 'expect': expect, 'got': got})
+                if not ok:
+                    und.append('self-test %s: expected %s got %s' % (name, expect, got))
+        rep['selftest'] = live
+    except Exception as e:
+        und.append('self-test crashed: %s' % e)
+    # 3. translation validation of the D-rules (only for properties whose units use them)
+    if P.get('rulecheck'):
+        r = subprocess.run([sys.executable, os.path.join(HERE, 'rulecheck.py')], capture_output=True, text=True)
+        rep['rulecheck'] = [l for l in r.stdout.splitlines() if l.startswith('RULECHECK')]
+        if r.returncode != 0:
+            und.append('rulecheck: the rewritten functions do not pass the project suite (%d)' % r.returncode)
+    return rep, und
+
+
+def write_evidence(pid, tier, seed, P, results, kres, violations, known, undecided, wall, thorough_report=None):
     obligations = sum(r['verified'] + r['errors'] for r in results) + sum(len(k['harnesses']) for k in kres)
     discharged = sum(r['verified'] for r in results) + sum(1 for k in kres for h in k['harnesses'] if h['status'] == 'proved')
     trusted = sorted(set(t for r in results for t in r['trusted']) | set(t for k in kres for t in k.get('trusted', [])))
@@ -325,6 +373,7 @@ def write_evidence(pid, tier, seed, P, results, kres, violations, known, undecid
         'failed_obligations': [{'key': v['key'], 'clause': v['clause'], 'at': v['at'], 'kind': v['kind']} for v in violations],
         'known_findings_matched': [f['obligation'] for _, f in known],
         'undecided': undecided,
+        'thorough_extras': thorough_report or {},
     }
     ev = {'property_id': pid, 'tier': tier, 'seed': seed, 'level': level, 'coverage': cov,
           'assumptions': P.get('assumptions', []) + trusted, 'wall_s': round(wall, 2), 'violations': len(violations) - len(known)}
